@@ -36,7 +36,7 @@ def to_oa_date(date):
 def to_date(oadate):
     value = oadate - DAYS_EPOCH
     year = 1970
-    while value > year_days(year):
+    while value >= year_days(year):
         value -= year_days(year)
         year += 1
     month = 0
